@@ -23,6 +23,9 @@ package main
 //                             (the log a node sees after the first copy was rewritten as MoD)
 //   Q:<k>:<cmid>:<data>       propose a raw IRCFromClient entry for slot k directly to raft (a second copy that a
 //                             lagging handler proposed, DESIGN D14; or any entry with a chosen client message id)
+//   K                         a real snapshot through raft (FSM.Snapshot folding everything applied so far +
+//                             Persist) restored with FSM.Restore, as a restart / InstallSnapshot does
+//   L:<k>                     keep a long poll of slot k open; every later R reports stream=ok|dead
 //   S                         swap the state for Unmarshal(Marshal(state)) as FSM.Restore does
 //   R:<meth>:<pathtmpl>:<hdrspec>:<basicspec>:<body>   one recorded request of the C11 matrix
 //   W:<path>                  probe a path without any credentials through main()'s wiring
@@ -46,6 +49,7 @@ import (
 	"sort"
 	"strconv"
 	"strings"
+	"sync"
 	"testing"
 	"time"
 
@@ -69,6 +73,130 @@ type verifApiRun struct {
 	slots   map[int]*verifApiSlot
 	cmid    uint64
 	created time.Time
+
+	// after a real snapshot + restore (op K) the folded entries are gone from irclog: the second
+	// replica of op Z then starts from the restored state instead of the empty server
+	base      []byte
+	baseIndex uint64
+
+	// the owner's long poll that is kept open while the C11 matrix runs (op L)
+	watch     *verifApiStream
+	watchSlot *verifApiSlot
+	probeSeq  int
+}
+
+// verifApiStream: one open GET .../messages request, read by a goroutine
+type verifApiStream struct {
+	cancel context.CancelFunc
+	mu     sync.Mutex
+	data   bytes.Buffer
+	status int
+	hdr    chan struct{} // closed once the response header arrived (or the request failed)
+	done   chan struct{} // closed when the body ended
+}
+
+func (st *verifApiStream) ended() bool {
+	select {
+	case <-st.done:
+		return true
+	default:
+		return false
+	}
+}
+
+func (st *verifApiStream) contains(needle string) bool {
+	st.mu.Lock()
+	defer st.mu.Unlock()
+	return bytes.Contains(st.data.Bytes(), []byte(needle))
+}
+
+func (r *verifApiRun) openStream(s *verifApiSlot) *verifApiStream {
+	ctx, cancel := context.WithCancel(context.Background())
+	st := &verifApiStream{cancel: cancel, hdr: make(chan struct{}), done: make(chan struct{})}
+	go func() {
+		defer close(st.done)
+		req, err := http.NewRequestWithContext(ctx, "GET", fmt.Sprintf("%s/robustirc/v1/0x%x/messages", r.n.srv.URL, s.id), nil)
+		if err != nil {
+			close(st.hdr)
+			return
+		}
+		req.Header.Set("X-Session-Auth", s.auth)
+		res, err := r.n.client.Do(req)
+		if err != nil {
+			close(st.hdr)
+			return
+		}
+		defer res.Body.Close()
+		st.status = res.StatusCode
+		close(st.hdr)
+		buf := make([]byte, 4096)
+		for {
+			n, err := res.Body.Read(buf)
+			if n > 0 {
+				st.mu.Lock()
+				st.data.Write(buf[:n])
+				st.mu.Unlock()
+			}
+			if err != nil {
+				return
+			}
+		}
+	}()
+	select {
+	case <-st.hdr:
+	case <-time.After(5 * time.Second):
+	}
+	return st
+}
+
+func (r *verifApiRun) closeWatch() {
+	if r.watch != nil {
+		r.watch.cancel()
+		select {
+		case <-r.watch.done:
+		case <-time.After(2 * time.Second):
+		}
+	}
+	r.watch, r.watchSlot = nil, nil
+}
+
+// streamProbe: is the owner's long poll still open AND still delivering?  The owner posts a
+// PING with a fresh token; its PONG must show up on the stream.  Returns ok | dead | -.
+// A dead stream is re-opened so that the next request is judged on its own.
+func (r *verifApiRun) streamProbe() string {
+	if r.watch == nil {
+		return "-"
+	}
+	s := r.watchSlot
+	if !verifApiAlive(s.id) {
+		r.closeWatch()
+		return "-"
+	}
+	alive := !r.watch.ended() && r.watch.status == 200
+	if alive {
+		r.probeSeq++
+		r.cmid++
+		token := fmt.Sprintf("verifprobe%d", r.probeSeq)
+		body, _ := json.Marshal(struct {
+			Data            string
+			ClientMessageId uint64
+		}{"PING " + token, r.cmid})
+		r.do("POST", fmt.Sprintf("/robustirc/v1/0x%x/message", s.id), r.sessHdr(s), nil, body, 20*time.Second)
+		deadline := time.Now().Add(5 * time.Second)
+		for !r.watch.contains(token) {
+			if r.watch.ended() || time.Now().After(deadline) {
+				alive = false
+				break
+			}
+			time.Sleep(500 * time.Microsecond)
+		}
+	}
+	if alive {
+		return "ok"
+	}
+	r.watch.cancel()
+	r.watch = r.openStream(s)
+	return "dead"
 }
 
 func verifApiHex(s string) string {
@@ -518,9 +646,11 @@ func (r *verifApiRun) op(tok string) (obs string) {
 		if err != nil {
 			return "N|err=" + verifApiHex(err.Error())
 		}
+		r.closeWatch()
 		r.n = n
 		r.slots = map[int]*verifApiSlot{}
 		r.created = ircServer.ServerCreation
+		r.base, r.baseIndex = nil, 0
 		rev, base, banned := verifApiConfigDigest(ircServer)
 		return fmt.Sprintf("N|pw=%s|wiring=%s|rev=%d|base=%s|banned=%s", verifApiHex(verifApiPassword), os.Getenv("VERIF_API_WIRING"), rev, base, banned)
 
@@ -676,6 +806,48 @@ func (r *verifApiRun) op(tok string) (obs string) {
 		return fmt.Sprintf("Q|sid=%d|cmid=%d|data=%s|err=%v|%s|lpm=%d|alive=%v|same=%d", s.id, cmid, a[3], ferr != nil, tail,
 			ircServer.LastPostMessage(robust.Id{Id: s.id}), verifApiAlive(s.id), same)
 
+	case "L":
+		// keep a long poll of slot k (with its own secret) open; every later R op reports whether it survived
+		r.closeWatch()
+		sl := r.slot(a[1])
+		r.watchSlot = sl
+		r.watch = r.openStream(sl)
+		return fmt.Sprintf("L|sid=%d|status=%d|ended=%v", sl.id, r.watch.status, r.watch.ended())
+
+	case "K":
+		// a REAL snapshot through raft (FSM.Snapshot's compaction fold + robustSnapshot.Persist into the
+		// FileSnapshotStore) restored the way a restart / InstallSnapshot does (FSM.Restore of that
+		// snapshot).  -canary_compaction_start moves the compaction horizon so that everything applied
+		// so far is old enough to be folded into the state message.
+		verifApiBarrier()
+		r.closeWatch()
+		before := r.markers()
+		revB, baseB, bannedB := verifApiConfigDigest(ircServer)
+		*canaryCompactionStart = time.Now().Add(48 * time.Hour).UnixNano()
+		f := node.Snapshot()
+		serr := f.Error()
+		*canaryCompactionStart = 0
+		if serr != nil {
+			return "K|noop=" + verifApiHex(serr.Error())
+		}
+		meta, rc, err := f.Open()
+		if err != nil {
+			return "K|err=" + verifApiHex(err.Error())
+		}
+		if err := r.n.fsm.Restore(rc); err != nil {
+			return "K|err=" + verifApiHex(err.Error())
+		}
+		r.created = ircServer.ServerCreation
+		after := r.markers()
+		revA, baseA, bannedA := verifApiConfigDigest(ircServer)
+		first, _ := ircStore.FirstIndex()
+		lastKept, _ := ircStore.LastIndex()
+		if data, err := ircServer.Marshal(verifApiLastIndex()); err == nil {
+			r.base, r.baseIndex = data, verifApiLastIndex()
+		}
+		return fmt.Sprintf("K|markers_same=%v|cfg_same=%v|before=%s|after=%s|snapindex=%d|kept=%d..%d|rev=%d|base=%s|banned=%s", before == after,
+			revB == revA && baseB == baseA && bannedB == bannedA, before, after, meta.Index, first, lastKept, revA, baseA, bannedA)
+
 	case "S":
 		verifApiBarrier()
 		before := r.markers()
@@ -756,8 +928,10 @@ func (r *verifApiRun) op(tok string) (obs string) {
 		if res.err != nil {
 			class = "error"
 		}
-		return fmt.Sprintf("R|m=%s|p=%s|h=%s|ba=%s|b=%s|jp=%s|jd=%s|last=%d|ss=%s|status=%d|class=%s|%s|leak=%d|same=%d|blen=%d", meth, verifApiHex(path),
-			hobs, bobs, verifApiHex(string(body)), verifApiJSONPost(body), verifApiJSONDelete(body), last, ss, res.status, class, tail, r.leak(res.body), same, len(res.body))
+		leak := r.leak(res.body)
+		stream := r.streamProbe() // after everything else was measured: the probe itself posts a message
+		return fmt.Sprintf("R|m=%s|p=%s|h=%s|ba=%s|b=%s|jp=%s|jd=%s|last=%d|ss=%s|status=%d|class=%s|%s|leak=%d|same=%d|blen=%d|stream=%s", meth, verifApiHex(path),
+			hobs, bobs, verifApiHex(string(body)), verifApiJSONPost(body), verifApiJSONDelete(body), last, ss, res.status, class, tail, leak, same, len(res.body), stream)
 
 	case "W":
 		path := verifApiUnhex(a[1])
@@ -789,6 +963,11 @@ func (r *verifApiRun) op(tok string) (obs string) {
 		}
 		defer os.RemoveAll(dir2)
 		i2 := ircserver.NewIRCServer(*network, r.created)
+		if r.base != nil {
+			if _, err := i2.Unmarshal(r.base); err != nil {
+				return "Z|err=" + verifApiHex(err.Error())
+			}
+		}
 		o2, err := outputstream.NewOutputStream(dir2)
 		if err != nil {
 			return "Z|err=" + verifApiHex(err.Error())
@@ -796,7 +975,7 @@ func (r *verifApiRun) op(tok string) (obs string) {
 		defer o2.Close()
 		outSame, firstDiff := true, uint64(0)
 		cfgTrace := []string{}
-		for idx := uint64(1); idx <= last; idx++ {
+		for idx := r.baseIndex + 1; idx <= last; idx++ {
 			m, ok := verifApiEntry(idx)
 			if !ok {
 				continue
@@ -868,6 +1047,7 @@ func TestVerifApi(t *testing.T) {
 		for _, tok := range f[2:] {
 			obs = append(obs, r.op(tok))
 		}
+		r.closeWatch()
 		fmt.Fprintln(w, strings.Join(obs, " "))
 		w.Flush()
 	}
